@@ -25,6 +25,9 @@ SEEDS = [
     (3, 0, [["mat", [0, 2], gen.perm_matrix([0, 2, 1, 3])], ["named", "H", [1]], ["named", "H", [1]], ["named", "CNOT", [1, 0]]]),
     (1, 1, [["named", "I", [0]], ["named", "Rz", [0, 2.5]], ["named", "Ry", [0, -1.0]], ["measure", 0, 0], ["named", "mX90", [0]]]),
     (4, 0, [["ctrl", 3, ["ctrl", 1, ["named", "X", [0]]]], ["named", "CNOT", [2, 3]], ["named", "Z", [2]], ["named", "Rx", [1, PI]]]),
+    # runs that multiply to a small rotation (5e-4, 4e-4, ~4e-4): small is not nothing
+    (2, 1, [["named", "Rz", [0, 0.0005]], ["named", "Rx", [1, 0.8]], ["named", "Rx", [1, -0.8004]], ["named", "CNOT", [0, 1]],
+            ["named", "Ry", [0, 0.0003]], ["named", "Rz", [0, 0.0003]], ["measure", 1, 0]]),
 ]
 
 
